@@ -1,4 +1,5 @@
 import FsDb.Proofs.Refine
+import FsDb.Proofs.GcAt
 import FsDb.Proofs.SpecShift
 /-! Several databases in one process share only the sequence counter (`internal/model/sequence`).
     From the point of view of one database the others are an environment that advances the counter
@@ -7,36 +8,12 @@ import FsDb.Proofs.SpecShift
 namespace FsDb
 open Sys Spec
 
-/-- the counter is raised to `n` by somebody else (it never goes down) -/
-def Sys.tick (c : Sys) (n : Nat) : Sys := { c with counter := max c.counter n }
-def Spec.tick (s : State) (n : Nat) : State := { s with clock := max s.clock n }
-
-theorem Inv.tick {c : Sys} (i : Inv c) (n : Nat) : Inv (c.tick n) := by
-  have hle : c.counter ≤ max c.counter n := Nat.le_max_left _ _
-  refine ⟨i.mainSorted, i.txSorted, i.allSorted, i.allMem, ?_, i.cidUnique, i.regIds, i.regMain, i.regSorted,
-    ?_, i.txsReg, i.ownAfter, i.beginNotVer, i.stor, i.cfsBound, i.pendDead, i.pendBound, i.domAll, i.domNodup,
-    i.tagMain, i.tagTx⟩
-  · intro k v hv; obtain ⟨a, b, c', d⟩ := i.bounds k v hv; exact ⟨a, Nat.le_trans b hle, c', d⟩
-  · intro r hr; have := i.regBound r hr; exact ⟨this.1, Nat.le_trans this.2 hle⟩
-
-theorem R.tick {c : Sys} {s : State} (h : R c s) (n : Nat) : R (c.tick n) (Spec.tick s n) := by
-  refine ⟨h.inv.tick n, ?_, h.dom, h.reg, ?_, h.hist, h.histDom⟩
-  · show max s.clock n = max c.counter n; rw [h.clock]
-  · intro x hx k
-    have hne : x.id ≠ mainTx := h.inv.regMain _ (h.mem_open hx)
-    rw [h.own x hx k, ownLatest_tx hne, ownLatest_tx hne]
-    rfl
-
 /-- a tick on the right-hand side keeps the stamp renaming -/
 theorem Spec.Shift.right_tick {f : Nat → Nat} {s s' : State} (h : Shift f s s') (n : Nat) : Shift f s (Spec.tick s' n) :=
   h.right_clock _ (Nat.le_max_left _ _) rfl rfl rfl
 
 /-! ### one database in an environment that advances the counter -/
 
-/-- operations of this database interleaved with counter advances caused by the others -/
-inductive EOp
-  | op (o : Op)
-  | tick (n : Nat)
 
 def Sys.erun (c : Sys) : List EOp → Sys × List Out
   | [] => (c, [])
